@@ -142,6 +142,7 @@ def stuckForever (nShut : Nat) : Rel → Bool
   | .hook j => j ≥ nShut
   | .drain => false
   | .never => true
+  | .hijack => false
 
 /-- the shutdown timeout can legitimately expire: a request cannot finish, or a hook used up the budget -/
 def timeoutLegit (sc : Scenario) : Bool :=
@@ -207,8 +208,17 @@ def noInterleave : List Nat → Bool
 
 /-! ### the language -/
 
+/-- a reload event of a round the environment started by calling `Reload` itself (a round started by
+    SIGHUP is run by the lifecycle: it is the lifecycle's own work) -/
+def isEnvReload (sc : Scenario) (e : Ev) : Bool :=
+  match reloadRound e with
+  | some r => match sc.rounds[r]? with
+    | some rd => rd.trig == .prog
+    | none => false
+  | none => false
+
 /-- Start returns, exactly once, and nothing but reload calls of the environment happens after it -/
-def returnsOnce (L : List Ev) : Bool := L.any isRet && (afterRet L).all isReload
+def returnsOnce (sc : Scenario) (L : List Ev) : Bool := L.any isRet && (afterRet L).all (isEnvReload sc)
 
 /-- OnStart hooks: sequential, in registration order, up to the first failure, before the listener opens -/
 def startsOk (sc : Scenario) (L : List Ev) : Bool :=
@@ -224,7 +234,7 @@ def reloadsOk (o : Obs) : Bool :=
 
 def holds (sc : Scenario) (o : Obs) : Bool :=
   let failing := sc.starts.find? startFails
-  returnsOnce o.log && startsOk sc o.log && readiesOk sc o.log && reloadsOk o &&
+  returnsOnce sc o.log && startsOk sc o.log && readiesOk sc o.log && reloadsOk o &&
   (if failing.isNone && sc.listen == .ok then shutdownOk sc o else failedStartOk sc o failing)
 
 /-! ### classes of the findings of DESIGN.md §7 (on the scenario only) -/
